@@ -4,7 +4,15 @@ Theorems over LiquerModel/Eval.lean and LiquerModel/Ref.lean; helper lemmas in L
 `Sound`, `Closed`, `CanonOK`: see the header of Props/C01.lean.  The world `World` is the KV specification
 of a cache instantiated at evaluator states (that every provided cache refines it is C13).
 The text hypothesis `CanonOK` is discharged by C02's round trip for every class of `wfTop` queries: the `_wf`
-corollaries (last section).
+corollaries.
+Section "evaluation through a cache back-end" (last) makes the bridge to C13 a theorem: `evalVia C codec …`
+(LiquerModel/EvalVia.lean) runs the evaluation against a cache back-end MODEL `C : CacheOps σ` (the single-thread replay of
+Conc.lean over `C` instead of `World`; evaluator states travel through a `StateCodec`); `worldOf cfg codec kv` is the `World` a
+state of the specification `kvOpsC cfg` stands for.  `eval_via_backend`: for every `C` that simulates `kvOpsC cfg` (`CSim`, the
+relation behind C13's refinement theorems) `evalVia` returns what `evalQ` returns on that world and ends related to the
+specification state of `evalQ`'s final world; `transparent_via_backend` (+ `_memory`, `_file`, `_sql`, `_proxy`, `_hist`):
+from the empty cache of that kind, and after any history of evaluations on it, the observation is that of the reference
+interpretation.  Lemmas: LiquerProofs/Lemmas/EvalVia.lean.
 -/
 import LiquerModel.Ref
 import LiquerProofs.Inst.Vocab
@@ -12,6 +20,12 @@ import LiquerProofs.Lemmas.EvalExact
 import LiquerProofs.Lemmas.EvalExample
 import LiquerProofs.Lemmas.EvalFrame
 import LiquerProofs.Lemmas.EvalCanon
+import LiquerProofs.Lemmas.EvalVia
+import LiquerProofs.Lemmas.CacheMemRef
+import LiquerProofs.Lemmas.CacheCombRef
+import LiquerProofs.Lemmas.CacheFileRef
+import LiquerProofs.Lemmas.CacheSqlRef
+import LiquerProofs.Lemmas.CacheWitness
 
 namespace Liquer.C04
 
@@ -180,6 +194,178 @@ example : DecOK env0.dec ∧ Closed env0 C0 T0 ∧ (∀ q, C0 q → wfTop Gen.es
     rcases hm with rfl | rfl | rfl | rfl | rfl | rfl | rfl <;> simp [HistOp.ok, C0]
   exact ⟨decUtf8_ok, closed0, hwf, histories_wf decUtf8_ok closed0 hwf 9 hist0 {} (Sound.empty _) hok⟩
 
+/-! ### evaluation through a cache back-end -/
+
+open Via in
+/-- **The bridge between C04 and C13.**  Let the back-end model `C` simulate the key-value specification `kvOpsC cfg`
+(`CSim C (kvOpsC cfg) R ok` — the statement behind `C13.memc_refines`, `filec_refines`, `sqlc_refines`, …) for a configuration
+that records progress writes of absent keys (`metaFresh`: `kvCfgKeep`, `kvCfgDrop`), let the codec satisfy its laws, and let
+`ok` admit the cache operations of an evaluation (`hok`; `TypeInv`: data-bearing bindings carry the codec's type identifier).
+Then for every specification state `kv` there are `N` and `kv'` such that `worldOf cfg c kv'` is exactly the final world of
+`evalQ` on `worldOf cfg c kv` (call log aside), and from every back-end state `s` related to `kv`, with at least `N` cache
+operations allowed, `evalVia` returns the outcome and the calls of that `evalQ` and ends related to `kv'`. -/
+theorem eval_via_backend {σ : Type} {C : CacheOps σ} {cfg : KVCfg} {R : σ → KV → Prop} {ok : KV → CacheOp → Prop}
+    {c : StateCodec} (sim : CSim C (kvOpsC cfg) R ok) (hf : cfg.metaFresh = true) (hc : CodecOK c)
+    (hok : ∀ kv op, TypeInv c kv → ok kv (COp.toCache c op))
+    (env : Env) (n : Nat) (kv : KV) (hT : TypeInv c kv) (q : Query) (raw : Str) :
+    ∃ (N : Nat) (kv' : KV),
+      TypeInv c kv' ∧
+      worldOf cfg c kv' = { (evalQ env n (worldOf cfg c kv) q raw .none none true).1 with calls := [] } ∧
+      ∀ (s : σ), R s kv → ∀ steps, N ≤ steps →
+        (evalVia C c env n steps s q raw).2.1 = (evalQ env n (worldOf cfg c kv) q raw .none none true).2 ∧
+        (evalVia C c env n steps s q raw).2.2 = (evalQ env n (worldOf cfg c kv) q raw .none none true).1.calls ∧
+        R (evalVia C c env n steps s q raw).1 kv' :=
+  Via.eval_via_backend sim hf hc hok env n kv hT q raw
+
+/-- the empty specification state stands for an empty (hence sound) world and satisfies the type invariant -/
+theorem empty_via (env : Env) (cfg : KVCfg) (c : StateCodec) : Sound env (worldOf cfg c []) ∧ Via.TypeInv c [] :=
+  ⟨Via.sound_worldOf_empty env cfg c, Via.TypeInv.empty c⟩
+
+/-- no evaluation ever hands an error state to `store` (so the `store` of the back-end never refuses) -/
+theorem never_stores_error (env : Env) (n : Nat) (A : List (Option EState)) (q : Query) (raw : Str) (st : EState)
+    (h : COp.store st ∈ (evalQO env n { answers := A } q raw .none none true).1.trace) : st.isError = false :=
+  Via.noErrStore env n A q raw .none none true st h
+
+open Via in
+/-- **A cache of any provided kind never changes what an evaluation returns** — with the back-end model in the statement.
+From a back-end state related to a specification state whose world is `Sound` (the empty one is), the observation of an
+evaluation of a query of a `Closed` class through the back-end is that of the reference interpretation, and the back-end ends
+related to a specification state whose world is `Sound` again (so the statement applies to the next evaluation). -/
+theorem transparent_via_backend {σ : Type} {C : CacheOps σ} {cfg : KVCfg} {R : σ → KV → Prop} {ok : KV → CacheOp → Prop}
+    {c : StateCodec} (sim : CSim C (kvOpsC cfg) R ok) (hf : cfg.metaFresh = true) (hc : CodecOK c)
+    (hok : ∀ kv op, TypeInv c kv → ok kv (COp.toCache c op))
+    {env : Env} {Cl : Query → Prop} {T : Str → Prop} (hC : Closed env Cl T) (hcanon : ∀ q, Cl q → CanonOK env q)
+    (n : Nat) (kv : KV) (hT : TypeInv c kv) (hS : Sound env (worldOf cfg c kv)) (q : Query) (raw : Str) (hCq : Cl q) :
+    ∃ (N : Nat) (kv' : KV), TypeInv c kv' ∧ Sound env (worldOf cfg c kv') ∧
+      ∀ (s : σ), R s kv → ∀ steps, N ≤ steps →
+        R (evalVia C c env n steps s q raw).1 kv' ∧
+        ((evalVia C c env n steps s q raw).2.1 ≠ .unmodelled →
+          ∃ m, (refQ env m q raw .none none).1 ≠ .unmodelled ∧
+            (evalVia C c env n steps s q raw).2.1.obs = (refQ env m q raw .none none).1.obs) := by
+  obtain ⟨N, kv', h1, h2, h3⟩ := Via.eval_via_backend sim hf hc hok env n kv hT q raw
+  refine ⟨N, kv', h1, ?_, fun s hR steps hN => ?_⟩
+  · rw [h2]
+    exact sound_setCalls (evalQ_refines hC hcanon n _ q raw .none none true hS hCq (fun _ => rfl)).1 []
+  · obtain ⟨e1, _, e3⟩ := h3 s hR steps hN
+    refine ⟨e3, fun hne => ?_⟩
+    rw [e1] at hne ⊢
+    exact transparent hC hcanon n _ q raw .none none true hS hCq (fun _ => rfl) hne
+
+/-- the property of one result of a history: modelled outcomes have the observation of the reference interpretation -/
+def ObsRef (env : Env) (qr : Query × Str) (o : Outcome × List Str) : Prop :=
+  o.1 ≠ .unmodelled → ∃ m, (refQ env m qr.1 qr.2 .none none).1 ≠ .unmodelled ∧ o.1.obs = (refQ env m qr.1 qr.2 .none none).1.obs
+
+open Via in
+/-- … for every history of evaluations on the same back-end (any length): every result has the observation of the reference
+interpretation, whatever the earlier evaluations left in the cache -/
+theorem transparent_via_backend_hist {σ : Type} {C : CacheOps σ} {cfg : KVCfg} {R : σ → KV → Prop}
+    {ok : KV → CacheOp → Prop} {c : StateCodec} (sim : CSim C (kvOpsC cfg) R ok) (hf : cfg.metaFresh = true)
+    (hc : CodecOK c) (hok : ∀ kv op, TypeInv c kv → ok kv (COp.toCache c op))
+    {env : Env} {Cl : Query → Prop} {T : Str → Prop} (hC : Closed env Cl T) (hcanon : ∀ q, Cl q → CanonOK env q)
+    (n : Nat) (h : List (Query × Str)) (hh : ∀ qr ∈ h, Cl qr.1) (kv : KV) (hT : TypeInv c kv)
+    (hS : Sound env (worldOf cfg c kv)) :
+    ∃ N, ∀ (s : σ), R s kv → ∀ steps, N ≤ steps →
+      List.Forall₂ (ObsRef env) h (evalViaHist C c env n steps s h).2 := by
+  induction h generalizing kv with
+  | nil => exact ⟨0, fun s _ steps _ => List.Forall₂.nil⟩
+  | cons qr rest ih =>
+    obtain ⟨q, raw⟩ := qr
+    obtain ⟨N1, kv', t1, s1, f1⟩ := transparent_via_backend sim hf hc hok hC hcanon n kv hT hS q raw
+      (hh (q, raw) (List.mem_cons_self ..))
+    obtain ⟨N2, f2⟩ := ih (fun qr hm => hh qr (List.mem_cons_of_mem _ hm)) kv' t1 s1
+    refine ⟨max N1 N2, fun s hR steps hN => ?_⟩
+    obtain ⟨r1, o1⟩ := f1 s hR steps (by omega)
+    exact List.Forall₂.cons o1 (f2 _ r1 steps (by omega))
+
+/-! the provided kinds, from the empty cache of that kind (with the `CSim` instances behind `C13.memc_refines`,
+`filec_refines`, `sqlc_refines`, `proxy_refines`) -/
+
+open Via in
+/-- `MemoryCache` -/
+theorem transparent_via_memory {c : StateCodec} (hc : CodecOK c) {env : Env} {Cl : Query → Prop} {T : Str → Prop}
+    (hC : Closed env Cl T) (hcanon : ∀ q, Cl q → CanonOK env q) (n : Nat) (h : List (Query × Str))
+    (hh : ∀ qr ∈ h, Cl qr.1) :
+    ∃ N, ∀ steps, N ≤ steps → List.Forall₂ (ObsRef env) h (evalViaHist memCOps c env n steps [] h).2 := by
+  obtain ⟨N, f⟩ := transparent_via_backend_hist mem_sim rfl hc (fun _ op _ => toCache_hasData hc op) hC hcanon n h hh []
+    (TypeInv.empty c) (sound_worldOf_empty env _ c)
+  exact ⟨N, f [] RM_init⟩
+
+open Via in
+/-- `FileCache`, `XORFileCache`, `FernetFileCache`: injective digest, codec of the file cache with decode ∘ encode = id -/
+theorem transparent_via_file (fc : FileCfg) (okc : Crash.CodecOK fc) (hinj : ∀ a b, fc.h a = fc.h b → a = b)
+    {c : StateCodec} (hc : CodecOK c) {env : Env} {Cl : Query → Prop} {T : Str → Prop}
+    (hC : Closed env Cl T) (hcanon : ∀ q, Cl q → CanonOK env q) (n : Nat) (h : List (Query × Str))
+    (hh : ∀ qr ∈ h, Cl qr.1) :
+    ∃ N, ∀ steps, N ≤ steps → List.Forall₂ (ObsRef env) h (evalViaHist (fileCOps fc) c env n steps [] h).2 := by
+  obtain ⟨N, f⟩ := transparent_via_backend_hist (file_sim fc okc hinj) rfl hc
+    (fun _ op hT => ⟨toCache_hasData hc op, toCache_typeStable hT op⟩) hC hcanon n h hh []
+    (TypeInv.empty c) (sound_worldOf_empty env _ c)
+  exact ⟨N, f [] (RF_init fc)⟩
+
+open Via in
+/-- `SQLCache` / `SQLStringCache` with `delete_before_insert` (a progress write drops the data: `kvCfgDrop`) -/
+theorem transparent_via_sql (sc : SqlCfg) (oks : SqlOK sc)
+    {c : StateCodec} (hc : CodecOK c) {env : Env} {Cl : Query → Prop} {T : Str → Prop}
+    (hC : Closed env Cl T) (hcanon : ∀ q, Cl q → CanonOK env q) (n : Nat) (h : List (Query × Str))
+    (hh : ∀ qr ∈ h, Cl qr.1) :
+    ∃ N, ∀ steps, N ≤ steps → List.Forall₂ (ObsRef env) h (evalViaHist (sqlCOps sc) c env n steps {} h).2 := by
+  obtain ⟨N, f⟩ := transparent_via_backend_hist (sql_sim sc oks) rfl hc (fun _ op _ => toCache_hasData hc op) hC hcanon
+    n h hh [] (TypeInv.empty c) (sound_worldOf_empty env _ c)
+  exact ⟨N, f {} (RS_init sc)⟩
+
+open Via in
+/-- a combinator: `CacheProxy` over any back-end that simulates the specification (here stated for every such back-end) -/
+theorem transparent_via_proxy {σ : Type} {C : CacheOps σ} {cfg : KVCfg} {R : σ → KV → Prop} {ok : KV → CacheOp → Prop}
+    {c : StateCodec} (sim : CSim C (kvOpsC cfg) R ok) (hf : cfg.metaFresh = true) (hc : CodecOK c)
+    (hok : ∀ kv op, TypeInv c kv → ok kv (COp.toCache c op))
+    {env : Env} {Cl : Query → Prop} {T : Str → Prop} (hC : Closed env Cl T) (hcanon : ∀ q, Cl q → CanonOK env q)
+    (n : Nat) (h : List (Query × Str)) (hh : ∀ qr ∈ h, Cl qr.1) (s0 : σ) (h0 : R s0 []) :
+    ∃ N, ∀ steps, N ≤ steps → List.Forall₂ (ObsRef env) h (evalViaHist (proxyCOps C) c env n steps s0 h).2 := by
+  have simP : CSim (proxyCOps C) (kvOpsC cfg) R ok := proxy_sim sim
+  obtain ⟨N, f⟩ := transparent_via_backend_hist simP hf hc hok hC hcanon n h hh [] (TypeInv.empty c)
+    (sound_worldOf_empty env _ c)
+  exact ⟨N, f s0 h0⟩
+
+-- non-vacuity.  The hypotheses of `eval_via_backend` / `transparent_via_*` hold for: the memory cache (simulation `mem_sim`,
+-- related initial states), the rendering codec `codecT` (laws proved: `Via.codecT_ok`), the example family (closed, with a link
+-- argument), a two-step history; the file and SQL configurations of C13's witnesses satisfy `Crash.CodecOK` / `SqlOK`.
+open Ex in
+example : CSim memCOps (kvOpsC kvCfgKeep) RM (fun _ op => op.hasData = true) ∧ kvCfgKeep.metaFresh = true ∧
+    Via.CodecOK codecT ∧ (∀ kv op, Via.TypeInv codecT kv → (COp.toCache codecT op).hasData = true) ∧ RM [] [] ∧
+    Via.TypeInv codecT [] ∧ Sound env0 (worldOf kvCfgKeep codecT []) ∧ Closed env0 C0 T0 ∧ (∀ q, C0 q → CanonOK env0 q) ∧
+    (∀ qr ∈ [(qLink, s "one/add-~X~/one~E"), (qOneAdd, s "one/add-2")], C0 qr.1) :=
+  ⟨mem_sim, rfl, Via.codecT_ok, fun _ op _ => Via.toCache_hasData Via.codecT_ok op, RM_init, Via.TypeInv.empty _,
+   Via.sound_worldOf_empty _ _ _, closed0, canon0, by
+    intro qr hm
+    simp only [List.mem_cons, List.not_mem_nil, or_false] at hm
+    rcases hm with rfl | rfl <;> simp [C0]⟩
+example : Crash.CodecOK Witness.fileCfg ∧ (∀ a b, Witness.fileCfg.h a = Witness.fileCfg.h b → a = b) ∧ SqlOK Witness.sqlCfg :=
+  ⟨Witness.fileCfg_ok, fun _ _ h => h, Witness.sqlCfg_ok⟩
+-- the conclusion exercised on the model of `MemoryCache` itself: `one/add-2` on the empty memory cache returns 3, executes
+-- `one` and `add`, and leaves ready entries for `one/add-2` and `one`; evaluated again on the cache it left, it returns 3
+-- and executes no command.  The same through the file, SQL and proxied memory models.
+open Ex in
+example :
+    let r1 := evalVia memCOps codecT env0 9 40 [] qOneAdd (s "one/add-2")
+    let r2 := evalVia memCOps codecT env0 9 40 r1.1 qOneAdd (s "one/add-2")
+    r1.2.1.obs.map (·.value) = some (some (.int 3)) ∧ r1.2.2.length = 2 ∧
+    (memCOps.contains r1.1 (s "one/add-2")).2 = true ∧ (memCOps.contains r1.1 (s "one")).2 = true ∧
+    ((memCOps.get r1.1 (s "one/add-2")).2.map (·.metadata.status)) = some ready ∧
+    r2.2.1.obs.map (·.value) = some (some (.int 3)) ∧ r2.2.2 = [] ∧
+    (refQ env0 9 qOneAdd (s "one/add-2") .none none).1.obs.map (·.value) = some (some (.int 3)) := by
+  decide +kernel
+open Ex in
+example :
+    let h := [(qLink, s "one/add-~X~/one~E"), (qOneAdd, s "one/add-2"), (qOneAdd, s "one/add-2")]
+    ((evalViaHist (fileCOps Witness.fileCfg) codecT env0 9 60 [] h).2.map (fun o => (o.1.obs.map (·.value), o.2.length))) =
+      [(some (some (.int 2)), 3), (some (some (.int 3)), 1), (some (some (.int 3)), 0)] ∧
+    ((evalViaHist (sqlCOps Witness.sqlCfg) codecT env0 9 60 {} h).2.map (fun o => (o.1.obs.map (·.value), o.2.length))) =
+      [(some (some (.int 2)), 3), (some (some (.int 3)), 1), (some (some (.int 3)), 0)] ∧
+    ((evalViaHist (proxyCOps memCOps) codecT env0 9 60 [] h).2.map (fun o => (o.1.obs.map (·.value), o.2.length))) =
+      [(some (some (.int 2)), 3), (some (some (.int 3)), 1), (some (some (.int 3)), 0)] := by
+  decide +kernel
+
 end Liquer.C04
 
 -- OBLIGATIONS: Liquer.C04.inst_registry Liquer.C04.sim_obs Liquer.C04.transparent Liquer.C04.transparent_two_worlds Liquer.C04.cache_vs_nocache Liquer.C04.empty_sound Liquer.C04.clean_sound Liquer.C04.remove_sound Liquer.C04.nocache_sound Liquer.C04.histories Liquer.C04.transparent_after_history Liquer.C04.frame_evalQ Liquer.C04.canon_of_wf Liquer.C04.transparent_wf Liquer.C04.transparent_two_worlds_wf Liquer.C04.cache_vs_nocache_wf Liquer.C04.histories_wf Liquer.C04.transparent_after_history_wf
+-- OBLIGATIONS: Liquer.C04.eval_via_backend Liquer.C04.empty_via Liquer.C04.never_stores_error Liquer.C04.transparent_via_backend Liquer.C04.transparent_via_backend_hist Liquer.C04.transparent_via_memory Liquer.C04.transparent_via_file Liquer.C04.transparent_via_sql Liquer.C04.transparent_via_proxy
